@@ -23,6 +23,9 @@ func (rr *SIG) Sign(k crypto.Signer, m *Msg) ([]byte, error) {
 
 	rr.Hdr = RR_Header{Name: ".", Rrtype: TypeSIG, Class: ClassANY, Ttl: 0}
 	rr.OrigTtl, rr.TypeCovered, rr.Labels = 0, 0, 0
+	// A SIG that has signed before still carries that signature; it must not
+	// be packed (and hashed) as part of the new RDATA.
+	rr.Signature = ""
 
 	// PackBuffer packs uncompressed first and needs room for that plus one
 	// octet; sizing from m.Len() is too small when m.Compress is set.
